@@ -348,12 +348,20 @@ func c14Concurrent() string {
 		wg.Add(1)
 		go func(g int) {
 			defer wg.Done()
+			cur := -1
+			defer func() {
+				// the mapping is TOTAL: a value that makes it panic is a violation, not a dead test run
+				if r := recover(); r != nil {
+					errs[g] = fmt.Sprintf("classifying / validating lifecycle value 0x%04x panics: %v", cur, r)
+				}
+			}()
 			<-start
 			step := []int{1, 257, 4099, 65535, 3, 32771, 769, 12289}[g]
 			for round := 0; round < 3 && errs[g] == ""; round++ {
 				v := uint16(g * 8191)
 				for i := 0; i < 65536; i++ {
 					want := lifecycleState(v)
+					cur = int(v)
 					st := psatoken.LifeCycleToState(v)
 					if (want >= 0) != st.IsValid() || (want >= 0 && int(st) != want) {
 						errs[g] = fmt.Sprintf("LifeCycleToState(0x%04x) = %d (%s) while %d other goroutines classify other values; the table says %d", v, st, st, G-1, want)
